@@ -487,3 +487,22 @@ impl VerifTopic {
 
 // ---- engine `match` (C15 partition part): one (pattern, name) test of the inline partition matching
 pub use crate::dcps::dcps_domain_participant::discovery_methods::verif_partition_pattern_is_match;
+
+
+// ---- C34 (worker channels), C32 (status condition / wait set): re-exports of already-`pub` items of private modules
+pub use crate::dcps::channels::{
+    mpsc::{MpscReceiver, MpscSender, MpscSenderError, mpsc_channel},
+    notification::{NotificationReceiver, NotificationSender, notification},
+    oneshot::{OneshotReceiver, OneshotSender, oneshot},
+};
+pub use crate::dcps::dcps_mail::{DcpsMail, StatusConditionMail};
+pub use crate::dcps::status_condition::{DcpsStatusCondition, StatusConditionEntity};
+
+/// `StatusConditionAsync::new` is `pub(crate)`: thin constructor so that a harness can attach conditions
+/// that talk to a harness-owned mail channel to the real `WaitSetAsync`.
+pub fn status_condition_async(
+    dcps_sender: crate::dds_async::domain_participant_factory::DcpsSender,
+    entity: StatusConditionEntity,
+) -> crate::dds_async::condition::StatusConditionAsync {
+    crate::dds_async::condition::StatusConditionAsync::new(dcps_sender, entity)
+}
